@@ -36,15 +36,15 @@ CONFIG = {'gen': ['SmbCommands'],
                '114 factory-reachable commands, and the real code is compared with the round-trip specification (decode(encode v) = v, '
                're-encode identical, slot locality) on internally consistent assignments. The loop fragment (MirrorLoops: matching loop '
                'pairs over list fields — range loop against a loop counted by a field read before it or running over a fixed array —, one '
-               "optional trailing parameter integer under 'WordCount tells which', a last read without advance) is proved the same way: "
-               'mirror_loops_roundtrip, mirror_loops_reencode (codec laws on the element types too; consistent asks list elements to be '
-               "fixed points of their Marshal; receiverFits: the receiver's fixed arrays have the sender's length and an optional integer "
-               'the sender holds as zero is zero — optional_stale_counterexample shows the stale value surviving otherwise), '
-               'smb_loops_roundtrip / smb_loops_reencode for the 96 regenerated MirrorLoops commands (loop_mirror_commands: '
-               'LockingAndxRequest, OpenAndxRequest, TransactionRequest, WriteAndxRequest, WriteMpxRequest, WriteRawRequest; '
-               'mirror_loops_extends; mirror_loops_types_lawful). For the 19 commands outside (non_mirror_loops_commands: 13 recorded '
-               'structural findings, whole-block / unchecked decodes, WriteRequest, the padding arithmetic of SESSION_SETUP_ANDX) the '
-               'round trip is decided by the correspondence runs only.',
+               "optional trailing parameter integer under 'WordCount tells which', padding arithmetic on lengths already read, a last read "
+               'without advance) is proved the same way: mirror_loops_roundtrip, mirror_loops_reencode (codec laws on the element types '
+               "too; consistent asks list elements to be fixed points of their Marshal; receiverFits: the receiver's fixed arrays have the "
+               "sender's length and an optional integer the sender holds as zero is zero — optional_stale_counterexample shows the stale "
+               'value surviving otherwise), smb_loops_roundtrip / smb_loops_reencode for the 98 regenerated MirrorLoops commands '
+               '(loop_mirror_commands: LockingAndxRequest, OpenAndxRequest, SessionSetupAndxRequest, SessionSetupAndxResponse, '
+               'TransactionRequest, WriteAndxRequest, WriteMpxRequest, WriteRawRequest; mirror_loops_extends; mirror_loops_types_lawful). '
+               'For the 17 commands outside (non_mirror_loops_commands: 13 recorded structural findings, whole-block / unchecked decodes, '
+               'WriteRequest) the round trip is decided by the correspondence runs only.',
  'level_note': 'Trusted: Lean kernel; axioms propext, Classical.choice, Quot.sound; the extractor and the IR semantics are tied to the Go '
                'code by differential testing (bounded); C06 models of nested types; known findings are recognised by Lean predicates on '
                'the extracted programs, one key per command.'}
